@@ -28,7 +28,8 @@ Inductive scalar :=
 | Sbool | Schar | Si8 | Si16 | Si32 | Si64 | Si128 | Sisize
 | Su8 | Su16 | Su32 | Su64 | Su128 | Susize | Sf16 | Sf32 | Sf64 | Sf128.
 
-Record sflags := { sf_upstream : bool; sf_fundamental : bool; sf_phantom_data : bool; sf_one_zst : bool }.
+Record sflags := { sf_upstream : bool; sf_fundamental : bool; sf_phantom_data : bool; sf_one_zst : bool;
+                   sf_repr_c : bool; sf_repr_packed : bool }.
 Record tflags := { tf_auto : bool; tf_marker : bool; tf_upstream : bool; tf_fundamental : bool;
                    tf_non_enumerable : bool; tf_coinductive : bool; tf_object_safe : bool }.
 
@@ -52,7 +53,14 @@ Section Syn.
   | TArray (t : ty) (c : konst)
   | TStr
   | TNever
-  with garg := GTy (t : ty) | GLt (l : lt) | GCVal (n : N) | GCVar (c : C).
+  (** [for<'a,..> unsafe fn(args, ...) -> ret]: [nb] lifetimes bound by one binder level that is
+      always opened, even when [nb = 0] *)
+  | TFn (nb : nat) (unsafe variadic : bool) (args : list ty) (ret : ty)
+  (** [dyn B + .. + 'l]: one level for the hidden self type (it has no name), then one level
+      per bound for its [forall<..>] *)
+  | TDyn (bounds : list dbound) (l : lt)
+  with garg := GTy (t : ty) | GLt (l : lt) | GCVal (n : N) | GCVar (c : C)
+  with dbound := DB (ks : list kind) (tr : R) (args : list garg).
 
   Inductive wc :=
   | WImpl (self : ty) (tr : R) (args : list garg)
@@ -84,6 +92,9 @@ Arguments TSlice {V L R C} t.
 Arguments TArray {V L R C} t c.
 Arguments TStr {V L R C}.
 Arguments TNever {V L R C}.
+Arguments TFn {V L R C} nb unsafe variadic args ret.
+Arguments TDyn {V L R C} bounds l.
+Arguments DB {V L R C} ks tr args.
 Arguments GTy {V L R C} t.
 Arguments GLt {V L R C} l.
 Arguments GCVal {V L R C} n.
@@ -100,6 +111,7 @@ Arguments IImpl {V L R C} params upstream positive tr args self wcs.
 Definition ivar := (nat * nat)%type.
 Definition ity := ty ivar ivar nat ivar.
 Definition igarg := garg ivar ivar nat ivar.
+Definition idbound := dbound ivar ivar nat ivar.
 Definition ilt := lt ivar.
 Definition ikonst := konst ivar.
 Definition iwc := wc ivar ivar nat ivar.
@@ -112,6 +124,7 @@ Inductive avar := AV (dd ii : nat) | ASelf.
 Definition alvar := (nat * nat)%type.          (* ['_D_I] *)
 Definition aty := ty avar alvar N Empty_set.
 Definition agarg := garg avar alvar N Empty_set.
+Definition adbound := dbound avar alvar N Empty_set.
 Definition alt := lt alvar.
 Definition akonst := konst alvar.
 Definition awc := wc avar alvar N Empty_set.
@@ -125,11 +138,11 @@ Definition ast := list aitem.
 Inductive kw :=
 | Kstruct | Kenum | Ktrait | Kimpl | Kfor | Kwhere | Kforall | Kmut | Kstatic | Kerased
 | Kscalar (s : scalar)
-| Kupstream | Kfundamental | Kphantom_data | Kone_zst | Kstr | Kconst | Kint | Kfloat
+| Kupstream | Kfundamental | Kphantom_data | Kone_zst | Kstr | Kconst | Kint | Kfloat | Kfn | Kunsafe | Kdyn | Krepr | KC | Kpacked
 | Kauto | Kmarker | Knon_enumerable | Kcoinductive | Kobject_safe.
 
 Inductive punct := PLt | PGt | PLParen | PRParen | PLBrace | PRBrace | PLBracket | PRBracket
-                 | PComma | PColon | PAmp | PBang | PHash | PStar | PSemi.
+                 | PComma | PColon | PAmp | PBang | PHash | PStar | PSemi | PArrow | PDots | PPlus.
 
 Inductive tok :=
 | KW (k : kw)
